@@ -317,6 +317,9 @@ func engineCrash(ctx *engineCtx) {
 
 	// ---------------- static-raw ----------------
 	for i := 0; i < nRawZip; i++ {
+		if ctx.perKey["c05-static-crash"] >= 6 {
+			break
+		}
 		f := g.wellFormed(2 + g.r.Intn(4))
 		p := g.presentation(f)
 		ms := renderFeed(g, p, f)
@@ -378,6 +381,10 @@ func engineCrash(ctx *engineCtx) {
 		bytesBudget = 3000000
 	}
 	for i := 0; i < nCell; i++ {
+		if ctx.perKey["c05-static-crash"] >= 6 { // every further hang costs a deadline and leaks a spinning goroutine
+			ctx.notes = append(ctx.notes, "static-cell stream stopped early after repeated crashes / hangs")
+			break
+		}
 		f := g.wellFormed(2 + g.r.Intn(8))
 		what := g.hostileFeed(f)
 		p := canonicalPresentation(f)
